@@ -405,14 +405,22 @@ class Consumer(object):
                 d[:] = s
             for d in px[hi_y1:lo_y1]:
                 d[:] = bytearray([back_attr]) * len(d)
-            self.text[from_line - 1:scroll_height] = self.text[from_line:scroll_height] + [blank]
+            # text: rows from+1..to move up one, row `to` is blanked (same bands as the pixels)
+            for r in range(from_line, scroll_height):
+                self.text[r - 1] = self.text[r]
+            if 1 <= scroll_height <= len(self.text):
+                self.text[scroll_height - 1] = list(blank)
         else:
             src = [bytearray(r) for r in px[hi_y0:hi_y1]]
             for d, s in zip(px[lo_y0:lo_y1], src):
                 d[:] = s
             for d in px[hi_y0:lo_y0]:
                 d[:] = bytearray([back_attr]) * len(d)
-            self.text[from_line - 1:scroll_height] = [blank] + self.text[from_line - 1:scroll_height - 1]
+            # text: rows from..to-1 move down one, row `from` is blanked
+            for r in range(scroll_height, from_line, -1):
+                self.text[r - 1] = self.text[r - 2]
+            if 1 <= from_line <= len(self.text):
+                self.text[from_line - 1] = list(blank)
 
     def h_update(self, row, col, unicode_matrix, attr_matrix, y0, x0, sprite):
         rows = [bytearray(r) for r in sprite.to_rows()] if sprite.height and sprite.width else []
@@ -654,7 +662,7 @@ class C35(core.Check):
     GEN = ['gen_signals']
     PROPS = 'props/C35.v'
     MODEL_IMPORTS = ['gen.Gen_signals', 'model.Signals']
-    QUICK_CASES = 70
+    QUICK_CASES = 60
     THOROUGH_CASES = 1500
     TRUSTED = [
         'hand model model/Signals.v of VideoBuffer/_PixelAccess/Display page and signal handling (with '
@@ -671,7 +679,7 @@ class C35(core.Check):
     ]
     PARTIAL = ('pixel layer proved; character-cell layer by correspondence/oracle only. Envelope of the theorems '
                '(checked on every recorded op): arguments inside the screen, no pending dirty text row inside a '
-               'cleared row range, scroll range inside the pixel matrix (excludes a scroll through text row 25 '
+               'cleared row range, scroll range non-empty (scroll_down: from <= to+1) and inside the pixel matrix (excludes a scroll through text row 25 '
                'of the 348-line Hercules mode, unreachable: VIEW PRINT to 25 is Tandy/PCjr only).')
     RULE = ('random histories (3-16 statements) of PRINT incl. wrap/scroll/control characters, CLS, COLOR, LOCATE, '
             'VIEW PRINT, SCREEN mode and page switches, WIDTH, KEY ON/OFF, PCOPY, PSET/LINE/CIRCLE/PUT/PAINT/VIEW, '
@@ -709,6 +717,10 @@ class C35(core.Check):
              'resume': 1},
             {'cfg': {'video': 'mda'}, 'stmts': ['COLOR 1,0', 'PRINT "underline"', 'CLS', 'DEF SEG=&HB000:POKE 0,65',
                                                 'POKE 1,&H70'], 'resume': 0},
+            # line feed below the scroll area: textscreen asks for scroll_down(25, 24) (nothing moves, row 25 blanked)
+            {'cfg': {'video': 'tandy'}, 'stmts': ['LOCATE 25,1', '@linefeed'], 'resume': 1},
+            {'cfg': {'video': 'hercules', 'width': 40}, 'stmts': ['SCREEN 3', 'LINE (0,340)-(9,347)', 'LOCATE 25,2',
+                                                                 '@linefeed'], 'resume': 1},
             {'cfg': {'video': 'vga'}, 'stmts': [], 'resume': 1},
         ]
 
@@ -851,12 +863,12 @@ def gen_stmt(rng, cfg):
         if rng.random() < .3:
             return 'PAINT (%d,%d),%d,%d' % (coord() % 40, coord() % 40, c, c)
         return 'PRESET (%d,%d)' % (coord(), coord())
-    if r < 0.97:
+    if r < 0.96:
         seg = rng.choice(['&HB800', '&HB000', '&HA000', '&HB800'])
         off = rng.choice([0, 1, 2, 159, 160, 161, 3999, 4000, 4096, 8000, 8192, 16383]) if rng.random() < .6 \
             else rng.randrange(0, 16384)
         return 'DEF SEG=%s:POKE %d,%d' % (seg, off, rng.randrange(0, 256))
-    return rng.choice(['@insert abc', '@insert ' + 'w' * 81, '@delete', '@clearline', '@linefeed', '@delete',
+    return rng.choice(['@insert abc', '@insert ' + 'w' * 81, '@delete', '@clearline', '@linefeed', '@linefeed',
                        '@insert q'])
 
 
